@@ -87,11 +87,32 @@ let fault_of = function
   | "nan_body" -> FtNaNBody | "errors_nodata" -> FtErrorsNoData | "errors_nulldata" -> FtErrorsNullData
   | "nulldata" -> FtNullData | "count_less" -> FtCountLess | "count_more" -> FtCountMore
   | "status_with_data" -> FtStatusWithData | "null_entities" -> FtNullEntities | "nan_data" -> FtNaNData
-  | k -> raise (Sexp_error ("fault " ^ k))
+  | k ->
+    (* sh_<shape>[_e|_5|_e5] / it_<itemkind>[_e|_5|_e5]: the data path holds null / a wrong kind (coq/C07/Model.v FtShape, FtItems) *)
+    (match String.split_on_char '_' k with
+     | pre :: name :: rest when pre = "sh" || pre = "it" ->
+       let (we, s5) = match rest with [] -> (false, false) | ["e"] -> (true, false) | ["5"] -> (false, true) | ["e5"] -> (true, true)
+                                    | _ -> raise (Sexp_error ("fault " ^ k)) in
+       if pre = "sh" then
+         FtShape ((match name with "entnull" -> ShEntNull | "entobj" -> ShEntObj | "entstr" -> ShEntStr | "dataempty" -> ShDataEmpty
+                                 | "datastr" -> ShDataStr | "datanum" -> ShDataNum | "dataarr" -> ShDataArr
+                                 | _ -> raise (Sexp_error ("fault " ^ k))), we, s5)
+       else
+         FtItems ((match name with "num" -> IkNum | "str" -> IkStr | "list" -> IkList | _ -> raise (Sexp_error ("fault " ^ k))), we, s5)
+     | _ -> raise (Sexp_error ("fault " ^ k)))
 let is_partial (k : string) = String.length k > 8 && String.sub k 0 8 = "partial/"
-let hard_kind = function
+(* the failure kinds after which an error must be reported: the Coq predicate [loud] of the theorems (coq/C07/Spec.v),
+   on the kind of the fetch the fault hits; NaN inside data / count faults on root fetches are never generated *)
+let hard_kind (fk : fkind) (k : string) =
+  if is_partial k then false else
+  match k with
   | "status_with_data" | "null_entities" -> false
-  | k -> not (is_partial k)
+  | "count_less" | "count_more" | "nan_data" -> true
+  | _ -> loud fk (fault_of k)
+(* `_entities` items / root `data` of a wrong kind: MergeValues fails, the resolve returns an error *)
+let abort_kind (fk : fkind) (k : string) =
+  (String.length k > 3 && String.sub k 0 3 = "it_") ||
+  (fk = FSingle && List.exists (fun p -> String.length k >= String.length p && String.sub k 0 (String.length p) = p) ["sh_datastr"; "sh_datanum"; "sh_dataarr"])
 
 exception Oracle_miss of string
 
@@ -195,7 +216,11 @@ let handle (x : sexp) : (string * string) list =
       let n = String.length s and m = String.length sub in
       let rec go i = i + m <= n && (String.sub s i m = sub || go (i + 1)) in go 0 in
     let causes (r : run) : string list =
-      (if List.exists (fun (_, k) -> k = "status_with_data") r.faults then ["status-ignored-with-data"] else []) in
+      (if List.exists (fun (_, k) -> k = "status_with_data") r.faults then ["status-ignored-with-data"] else []) @
+      (* a root fetch answered {"data":{..}} with status 500 and no errors entry: the same cause *)
+      (if List.exists (fun (f, k) -> kind_of (n_of_int f) = FSingle && List.mem k ["sh_entnull_5"; "sh_entobj_5"; "sh_entstr_5"; "sh_dataempty_5"]) r.faults
+       then ["status-ignored-with-data"] else []) @
+      (if List.exists (fun (f, k) -> abort_kind (kind_of (n_of_int f)) k) r.faults then ["wrong-kind-data-aborts-response"] else []) in
     let add i (r : run) s d =
       let fl = String.concat "," (List.map (fun (f, k) -> Printf.sprintf "%d:%s" f k) r.faults) in
       res := (s, Printf.sprintf "%s run=%d faults=[%s] causes=[%s] %s" (List.hd (String.split_on_char ' ' d)) i fl
@@ -214,7 +239,7 @@ let handle (x : sexp) : (string * string) list =
          if not r.valid then add i r "specfail" "valid_response the response is not valid JSON"
          else if not r.env then add i r "specfail" "valid_response the envelope is not {errors?,data}";
          let sent_fids = List.map (fun (rq : request) -> int_of_n rq.rq_fetch) r.reqs in
-         let nhard = List.length (List.filter (fun (f, k) -> hard_kind k && List.mem f sent_fids) r.faults) in
+         let nhard = List.length (List.filter (fun (f, k) -> hard_kind (kind_of (n_of_int f)) k && List.mem f sent_fids) r.faults) in
          if r.valid && not (errors_nonempty_b (n_of_int nhard) (n_of_int r.nerr)) then
            add i r "specfail" "errors_nonempty a request failed but the response reports no error";
          (match r.data with
